@@ -444,6 +444,7 @@ pub fn run(ctx: &Ctx) {
     );
     if full {
         stretch_layer(ctx);
+        history_layer(ctx);
     }
 }
 
@@ -598,6 +599,169 @@ fn stretch_layer(ctx: &Ctx) {
     );
 }
 
+// ------------------------------------------------------------------------------------------------
+// Histories on ONE reader: reads, skips and configuration changes interleaved (state carried from a
+// failed skip into later calls), the same history on the three reader kinds.
+
+#[derive(Clone, Copy, PartialEq, Eq, Debug)]
+enum HOp {
+    Read,
+    /// read_to_end* with the name of the last Start event (a plain read if the last event was no Start)
+    Skip,
+    Flip(u8),
+}
+
+const HOPS: [HOp; 5] = [HOp::Read, HOp::Skip, HOp::Flip(TRIM_START), HOp::Flip(TRIM_END), HOp::Flip(EXPAND_EMPTY)];
+
+/// One step of a history as observed: what the call returned, the configuration and the position after it.
+#[derive(Clone, PartialEq, Eq, Debug)]
+struct HObs {
+    what: String,
+    cfg: u8,
+    pos: u64,
+}
+
+fn run_history_on(input: &[u8], cfg0: u8, ops: &[HOp], kind: u8) -> Result<Vec<HObs>, String> {
+    let script = Script::pieces(1);
+    let horizon = input.len() + 16;
+    let r = guarded_mut(|| -> Result<Vec<HObs>, String> {
+        let mut out = Vec::new();
+        let mut slice = Reader::from_reader(input);
+        let mut io = Reader::from_reader(Source::new(input, &script));
+        apply_cfg(slice.config_mut(), cfg0);
+        apply_cfg(io.config_mut(), cfg0);
+        let mut buf = Vec::new();
+        let mut last_start: Option<Vec<u8>> = None;
+        let mut fatal = false;
+        for (k, op) in ops.iter().enumerate() {
+            let before = if kind == 0 { cfg_bits(slice.config()) } else { cfg_bits(io.config()) };
+            let what = match *op {
+                HOp::Flip(bit) => {
+                    let c = if kind == 0 { slice.config_mut() } else { io.config_mut() };
+                    let now = cfg_bits(c) ^ bit;
+                    apply_cfg(c, now);
+                    last_start = last_start.take();
+                    format!("flip -> [{}]", cfg_show(now))
+                }
+                HOp::Skip if last_start.is_some() => {
+                    let name = last_start.take().unwrap();
+                    let q = QName(&name);
+                    let r = match kind {
+                        0 => slice.read_to_end(q).map(|s| (s.start, s.end)).map_err(|e| format!("{:?}", e)),
+                        1 => {
+                            buf.clear();
+                            io.read_to_end_into(q, &mut buf).map(|s| (s.start, s.end)).map_err(|e| format!("{:?}", e))
+                        }
+                        _ => {
+                            buf.clear();
+                            match block_on(io.read_to_end_into_async(q, &mut buf), 4 * horizon) {
+                                Some(r) => r.map(|s| (s.start, s.end)).map_err(|e| format!("{:?}", e)),
+                                None => return Err(format!("step #{}: async skip did not complete", k)),
+                            }
+                        }
+                    };
+                    if let Err(e) = &r {
+                        if e.contains("Syntax") {
+                            fatal = true;
+                        }
+                    }
+                    format!("skip -> {:?}", r)
+                }
+                HOp::Read | HOp::Skip => {
+                    let ev = match kind {
+                        0 => Ev::from_result(&slice.read_event()),
+                        1 => {
+                            buf.clear();
+                            Ev::from_result(&io.read_event_into(&mut buf))
+                        }
+                        _ => {
+                            buf.clear();
+                            match block_on(io.read_event_into_async(&mut buf), horizon) {
+                                Some(r) => Ev::from_result(&r),
+                                None => return Err(format!("step #{}: async read did not complete", k)),
+                            }
+                        }
+                    };
+                    last_start = match &ev {
+                        Ev::Start(c, n) => Some(c[..*n].to_vec()),
+                        _ => None,
+                    };
+                    if matches!(&ev, Ev::Err(e) if e.is_syntax()) {
+                        fatal = true;
+                    }
+                    format!("read -> {}", ev.show())
+                }
+            };
+            let (after, pos) = if kind == 0 { (cfg_bits(slice.config()), slice.buffer_position()) } else { (cfg_bits(io.config()), io.buffer_position()) };
+            if !matches!(op, HOp::Flip(_)) && after != before {
+                return Err(format!("step #{} ({}) changed the configuration from [{}] to [{}]", k, what, cfg_show(before), cfg_show(after)));
+            }
+            // the resting position after a fatal syntax error is not stated (see C02)
+            out.push(HObs { what, cfg: after, pos: if fatal { 0 } else { pos } });
+        }
+        Ok(out)
+    });
+    r.map_err(|p| format!("panic: {}", p))?
+}
+
+fn history_layer(ctx: &Ctx) {
+    let t = ctx.tier;
+    let k = TOKENS.len() as u64;
+    let nt = t.pick(4, 5);
+    let nh = t.pick(4, 6);
+    let ko = HOPS.len() as u64;
+    let ndocs = count_upto(k, nt);
+    let nhist = count_upto(ko, nh);
+    let cfgs = [CHECK_END_NAMES | TRIM_NAMES, CHECK_END_NAMES | TRIM_NAMES | TRIM_START | TRIM_END];
+    ctx.layer(
+        "histories_on_one_reader",
+        2,
+        ndocs * 2,
+        json!({"documents": format!("every token sequence up to {} tokens (well-formed or not)", nt), "operations": ["read_event", "skip the element just opened", "flip trim_text_start", "flip trim_text_end", "flip expand_empty_elements"], "max_operations": nh, "histories_per_document": nhist, "readers": ["slice", "buffered (1-byte pieces)", "async (1-byte pieces)"], "initial_configurations": 2}),
+        |i, acc| {
+            let mut toks = Vec::new();
+            decode_upto(k, nt, i / 2, &mut toks);
+            let cfg0 = cfgs[(i % 2) as usize];
+            let doc = Doc::new(&toks);
+            let mut d = Vec::new();
+            for h in 0..nhist {
+                decode_upto(ko, nh, h, &mut d);
+                let ops: Vec<HOp> = d.iter().map(|&x| HOPS[x as usize]).collect();
+                // histories that end in a flip or start with a skip add nothing
+                if matches!(ops.last(), Some(HOp::Flip(_)) | None) || !ops.iter().any(|o| *o == HOp::Skip) {
+                    continue;
+                }
+                let mut traces: Vec<Vec<HObs>> = Vec::new();
+                for kind in 0..3u8 {
+                    acc.evaluations += 1;
+                    acc.transitions += ops.len() as u64;
+                    match run_history_on(&doc.bytes, cfg0, &ops, kind) {
+                        Ok(tr) => traces.push(tr),
+                        Err(what) => {
+                            acc.violation((2, i), format!("document {:?} initial cfg [{}], history {:?} on the {} reader: {}", lossy(&doc.bytes), cfg_show(cfg0), ops, ["slice", "buffered", "async"][kind as usize], what), json!({"tokens": toks, "hist_cfg": cfg0, "history": d, "reader": kind}));
+                            break;
+                        }
+                    }
+                }
+                if traces.len() == 3 {
+                    acc.traces += 1;
+                    acc.nt_count += 1;
+                    for kind in 1..3 {
+                        if traces[kind] != traces[0] {
+                            let j = (0..traces[0].len()).find(|&j| traces[kind][j] != traces[0][j]).unwrap_or(0);
+                            acc.violation(
+                                (2, i),
+                                format!("document {:?} initial cfg [{}], history {:?}: step #{} on the {} reader gives {:?}, on the slice reader {:?}", lossy(&doc.bytes), cfg_show(cfg0), ops, j, ["slice", "buffered", "async"][kind], traces[kind][j], traces[0][j]),
+                                json!({"tokens": toks, "hist_cfg": cfg0, "history": d, "reader": kind}),
+                            );
+                        }
+                    }
+                }
+            }
+        },
+    );
+}
+
 fn parse_op(s: &str) -> Op {
     let nums: Vec<usize> = s.split(|c: char| !c.is_ascii_digit()).filter(|x| !x.is_empty()).map(|x| x.parse().unwrap()).collect();
     if s.starts_with("ReadToEnd") {
@@ -614,6 +778,27 @@ fn parse_op(s: &str) -> Op {
 }
 
 pub fn replay(case: &Value) -> Result<(), String> {
+    if let Some(h) = case.get("history").and_then(|h| h.as_array()) {
+        let toks: Vec<u8> = case["tokens"].as_array().ok_or("no tokens")?.iter().map(|v| v.as_u64().unwrap() as u8).collect();
+        let doc = Doc::new(&toks);
+        let cfg0 = case["hist_cfg"].as_u64().unwrap_or(0) as u8;
+        let ops: Vec<HOp> = h.iter().map(|x| HOPS[x.as_u64().unwrap() as usize]).collect();
+        println!("document {:?} initial cfg [{}] history {:?}", lossy(&doc.bytes), cfg_show(cfg0), ops);
+        let mut first: Option<Vec<HObs>> = None;
+        for kind in 0..3u8 {
+            let tr = run_history_on(&doc.bytes, cfg0, &ops, kind)?;
+            println!("{} reader:", ["slice", "buffered", "async"][kind as usize]);
+            for o in &tr {
+                println!("  {} | cfg [{}] pos {}", o.what, cfg_show(o.cfg), o.pos);
+            }
+            match &first {
+                None => first = Some(tr),
+                Some(f) if *f != tr => return Err("the readers disagree".into()),
+                _ => {}
+            }
+        }
+        return Ok(());
+    }
     let toks: Vec<u8> = match case.get("stretch").and_then(|s| s.as_array()) {
         Some(a) => stretch_doc(a[0].as_u64().unwrap() as usize, a[1].as_u64().unwrap() as usize, a[2].as_u64().unwrap() as usize).0,
         None => case["tokens"].as_array().ok_or("no tokens")?.iter().map(|v| v.as_u64().unwrap() as u8).collect(),
